@@ -60,6 +60,7 @@ def check(case):
     feats = _feature(rtx, raw, trailing)
     feat = "+".join(feats) or "plain"
     cls = ["nt:" + x for x in feats] + ["trail:" + tk, "segwit" if rtx["segwit"] else "legacy"]
+    cls += ["nt:" + x for x in gen_tx.features(rtx) if x not in ("segwit", "segwit-nonfinal-seq")]
     if len(rtx["ins"]) == 1 and rtx["ins"][0]["txid"] == b"\x00" * 32 and rtx["ins"][0]["vout"] == 0xFFFFFFFF:
         cls.append("nt:coinbase-shaped-segwit" if rtx["segwit"] else "nt:coinbase-shaped-legacy")
     if tk == "same":
@@ -114,7 +115,8 @@ def check(case):
 
 @st.composite
 def cases(draw):
-    tx = draw(gen_tx.tx_case("small"))
+    # mostly small transactions (ids depend on structure, not size); one in eight from the boundary-length grammar
+    tx = draw(gen_tx.tx_case("small")) if draw(st.integers(0, 7)) else draw(gen_tx.tx_case("full"))
     if draw(st.integers(0, 9)) == 0:
         # coinbase-shaped: a single input spending the null outpoint (legacy or with the reserved-value witness)
         tx["ins"] = tx["ins"][:1]
@@ -154,7 +156,7 @@ def _targets(tier):
             check,
             strategy=lambda tier: cases(),
             budget={"quick": 6000, "thorough": 200000},
-            required=["nt:segwit-nonfinal-seq", "nt:trail-1byte-in-tx", "nt:trail-same-tx", "nt:in-block", "nt:block-dup-tx", "nt:trail-in-tx", "nt:coinbase-shaped-segwit", "nt:coinbase-shaped-legacy", "nt:after-related-tx"],
+            required=["nt:segwit-nonfinal-seq", "nt:trail-1byte-in-tx", "nt:trail-same-tx", "nt:in-block", "nt:block-dup-tx", "nt:trail-in-tx", "nt:coinbase-shaped-segwit", "nt:coinbase-shaped-legacy", "nt:after-related-tx", "nt:script>=253", "nt:wit-item>=253", "nt:wit-item-3000..65533", "nt:n_in>=253"],
         )
     ]
 
